@@ -31,11 +31,17 @@ import child as childmod  # noqa: E402
 import oracle as oraclemod  # noqa: E402
 import runner  # noqa: E402
 
-REPO = os.environ.get("VERIF_REPO", "/repo")
+REPO = os.path.realpath(os.environ.get("VERIF_REPO", "/repo"))
 WORK = os.path.join(ROOT, "work", "C19")
+HARN = os.path.join(ROOT, "harness")
+if REPO != "/repo":
+    # development aid of ./check: run against a scratch copy of the repository (own build dirs)
+    _alt = os.path.join(ROOT, "work", "alt-" + hashlib.sha1(REPO.encode()).hexdigest()[:8])
+    WORK = os.path.join(_alt, "C19")
+    if os.path.isdir(os.path.join(_alt, "harness")):
+        HARN = os.path.join(_alt, "harness")
 TARGET = os.path.join(WORK, "target")
 SO = os.path.join(TARGET, "debug", "libcameleon_gentl.so")
-HARN = os.path.join(ROOT, "harness")
 CWD = os.path.join(REPO, "gentl")
 U64 = 1 << 64
 RULE = ("a case = one call sequence run in its own child process; non-trivial = at least one call after "
@@ -172,9 +178,8 @@ def field(res, key):
 
 def cstr(res):
     """NUL-terminated value of a successful string query"""
-    n = int(field(res, "n"))
-    b = bytes.fromhex(field(res, "b"))[:n]
-    return b[:-1]
+    b = bytes.fromhex(field(res, "b"))
+    return b.split(b"\0", 1)[0]      # what a C consumer sees; size / termination are the oracle's business
 
 
 def le(res):
@@ -591,6 +596,38 @@ def run_with_restart(pool, prefix, probes, chunk):
     return seqs_all, res_all
 
 
+def minimise(rep, pool, orc, specs, limit=6):
+    """delta-debug the replay of the first violation of each distinct signature: drop calls one
+    at a time as long as a fresh oracle (seeded with the values learnt so far) still reports the
+    same signature on a fresh child run"""
+    seen = set()
+    for v in rep.violations:
+        key = json.dumps(v["sig"], sort_keys=True)
+        if key in seen or len(seen) >= limit or "ops" not in v["replay"] or v["sig"].get("oracle") in ("discovery", "xml_agrees_with_info"):
+            continue
+        seen.add(key)
+
+        def bad(ops):
+            res = pool.run([ops], chunk=1)[0]
+            o = oraclemod.Oracle(specs["sys"], specs["if"])
+            o.values = dict(orc.values)
+            o.run(ops, res)
+            return any(json.dumps(x[0], sort_keys=True) == key for x in o.violations)
+
+        cur = list(v["replay"]["ops"])
+        if len(cur) > 400 or not bad(cur):
+            continue
+        changed = True
+        while changed:
+            changed = False
+            for i in range(len(cur) - 1, -1, -1):
+                cand = cur[:i] + cur[i + 1:]
+                if cand and bad(cand):
+                    cur, changed = cand, True
+        v["replay"] = {"ops": cur}
+        v["minimised"] = True
+
+
 def flush_model(rep, env, camdrv):
     pend, rep.pending = rep.pending, []
     if not pend:
@@ -773,6 +810,7 @@ def main():
     seqs = gen_random(rng, 40000 if thorough else 6000, env)
     evaluate(rep, orc, "random", seqs, pool.run(seqs, chunk=128))
     flush_model(rep, env, args.camdrv)
+    minimise(rep, pool, orc, specs)
     pool.close()
     rep.extra["oracle_checks"] = orc.n_checks
     rep.extra["wall_s"] = round(time.time() - t0, 1)
